@@ -126,6 +126,8 @@ Shapes(X) ==
   \cup {Call(X, <<a>>), Call(f, <<X, b>>), Call(f, <<a, X>>), Call(f, <<Spread(X)>>), Idx(X, Num(0)), Idx(l, X), Dot(X, "f")}
   \cup {If(X, b, c), If(a, X, c), If(a, b, X)}
   \cup {Lam(<<P("x", "req")>>, X), Lam(<<P("x", "req"), P("y", "opt"), P("z", "rest")>>, X)}
+  \cup {Call(f, <<Lam(<<P("r", "rest")>>, X), b>>), ListE(<<Lam(<<P("r", "rest")>>, X)>>), Lam(<<P("o", "opt")>>, X), Lam(<<>>, X),
+        Call(f, <<Lam(<<P("o", "opt")>>, X)>>), RecE(<<EStatic("k", Lam(<<P("r", "rest")>>, X))>>)}      \* a lone rest / optional parameter, where `...` could be read as a spread
   \cup {Do(<<Asg("t", X)>>, Id("t")), Do(<<>>, X), Do(<<X>>, a)}
   \cup {DoS(<<Asg("t", b), X>>, Id("t")), DoS(<<X, Asg("t", b)>>, Id("t"))}     \* a second statement may begin with any token, e.g. a minus sign
   \cup {Asg("z", X)}
